@@ -55,7 +55,11 @@ MANIFEST_NOTE = ("Trusted: Lean kernel (+propext/Classical.choice/Quot.sound), t
                  "and swapped branches on x==npos, `if (c) continue;` guards, for vs while with trailing increments, i++ / i+=1 / ++i, "
                  "range-for and begin()/end() iterator loops vs index loops with an otherwise unused counter, a loop-carried cache of a "
                  "side-effect-free expression that is refreshed as the last statement of the loop body, x=E; x=G[x] vs x=G[E], and "
-                 "once-initialised locals with a side-effect-free initialiser whose operands do not change before the last use.  Every "
+                 "once-initialised locals with a side-effect-free initialiser whose operands do not change before the last use, single-return "
+                 "predicate helpers (inlined at every call, also in loop conditions), static_cast<T>(e) vs T(e), renamed loop counters; the "
+                 "quote-loop condition, the overwrite test, the option test and the missing test are compared as Boolean functions of "
+                 "their atoms (truth tables: De Morgan, double negation, commuted operands) with the short-circuit guards kept (back() only "
+                 "after empty() was false, argv[i][1] only after argv[i][0]=='-').  Every "
                  "rule checks its side condition on the text (conservatively: an unknown call that receives a variable counts as a "
                  "change of it) and leaves the code alone otherwise; any remaining deviation from the patterns is a loud TranslateError "
                  "(still alarming although harmless: std algorithms for hand loops, count-down loops, reordered statements, helpers with "
